@@ -545,20 +545,22 @@ class _RecMap:
         return AbsTime(self.pool.pop(0)), 0
 
 
-def _mk_chart(notes, tempo, plain_dict=False):
+def _mk_chart(notes, tempo, plain_dict=False, offset=0):
     import collections
     tr = InstrumentTrack(instrument=Instrument.GUITAR, difficulty=Difficulty.EXPERT,
                          note_events=notes, star_power_events=[], track_events=[])
     tracks = {} if plain_dict else collections.defaultdict(dict)
     tracks[Instrument.GUITAR] = {Difficulty.EXPERT: tr}
     sync = _Sent("sync", bpm_events=tempo)
-    return Chart(_Sent("meta", resolution=192), _Sent("glob"), sync, tracks), tr
+    # a real Metadata object: every [Song] value is there to be read (none of them bears on the rate)
+    meta = MD.Metadata(resolution=192, offset=offset, difficulty=3, preview_start=offset, preview_end=offset + 5, name="n")
+    return Chart(meta, _Sent("glob"), sync, tracks), tr
 
 
 def nps(form: int, n: int, ts0: int, ts1: int, ts2: int, en0: int, en1: int, en2: int,
-        a: int, b: int, ua: int, ub: int, inst_ok: bool, diff_ok: bool) -> bool:
+        a: int, b: int, ua: int, ub: int, inst_ok: bool, diff_ok: bool, off: int = 0) -> bool:
     """
-    pre: 0 <= form <= 5
+    pre: 0 <= form <= 5 and 0 <= off <= 3
     pre: 0 <= n <= NN
     pre: ts0 >= 0 and ts1 >= 0 and ts2 >= 0
     pre: ts0 <= en0 and ts1 <= en1 and ts2 <= en2
@@ -571,7 +573,7 @@ def nps(form: int, n: int, ts0: int, ts1: int, ts2: int, en0: int, en1: int, en2
     notes = [NoteEvent(tick=i, timestamp=AbsTime(ts[i]), end_timestamp=AbsTime(en[i]),
                        note=Note.G, hopo_state=HOPOState.STRUM) for i in range(n)]
     tempo = _FuncMap()
-    chart, tr = _mk_chart(notes, tempo)
+    chart, tr = _mk_chart(notes, tempo, offset=off)
     inst = Instrument.GUITAR if inst_ok else Instrument.BASS
     diff = Difficulty.EXPERT if diff_ok else Difficulty.EASY
     last_end = None
